@@ -56,7 +56,7 @@ EVENT_MENU: List[Tuple[str, List[Any]]] = [
     ("ret_arr", [("addr", 0)]), ("ret_arr", [("addr", 1)]),
     ("qalloc", [Q(0)]), ("qfree", [Q(0)]), ("qalloc", [R(1)]), ("qfree", [R(1)]),
     ("wait_all", [("slice", 0, R(0), R(1))]), ("wait_any", [("slice", 0, R(0), R(1))]), ("wait_single", [("entry", 0, R(1))]),
-    ("wait_all", [("slice", 1, R(0), C(0))]),
+    ("wait_all", [("slice", 1, R(0), C(0))]), ("wait_any", [("slice", 1, R(0), R(1))]), ("wait_any", [("slice", 0, R(1), C(0))]),
 ]
 
 
@@ -106,10 +106,16 @@ def check_setup_state(ex, part) -> None:
                       {"kind": "program", "setup": SETUP, "program": []})
 
 
+WIRE = False      # values_shard: the subroutine reaches the executor as the controller receives it (encoded, decoded)
+
+
 def run_real(ex, prog, trace: Optional[list] = None):
     """Executes one subroutine; returns ('done',) | ('fault', line|None, message) | ('blocked',) | ('horizon',)."""
     from netqasm.lang.subroutine import Subroutine
     sub = Subroutine(instructions=to_real(prog), app_id=APP, netqasm_version=(0, 0))
+    if WIRE:
+        from netqasm.lang.parsing.binary import deserialize
+        sub = deserialize(bytes(sub))
     ex.steps = 0
     ex.wait_polls = 0
     if trace is not None:
@@ -126,7 +132,7 @@ def run_real(ex, prog, trace: Optional[list] = None):
     except Exception as exc:
         _guard(exc)
         m = re.match(r"At line (\d+):", str(exc))
-        return ("fault", int(m.group(1)) if m else None, f"{type(exc).__name__}: {str(exc).splitlines()[0][:160]}")
+        return ("fault", int(m.group(1)) if m else None, f"{type(exc).__name__}: {(str(exc).splitlines() or [""])[0][:160]}")
     finally:
         ex.step_hook = None
     return ("done",)
@@ -399,6 +405,50 @@ def regfile_shard(shard):
     return part
 
 
+VALUES = [0, 1, -1, 5, 255, 256, 257, 300, -300, 65536, 2 ** 31 - 1, -2 ** 31]
+
+
+def values_shard(shard):
+    """Register values outside the handful the alphabets use (beyond one byte, negative, the 32-bit ends), computed and
+    loaded in different ways and then compared by every branch kind: the outcome depends on the numbers only.  The
+    subroutines go through the wire form, as on a real controller."""
+    global WIRE
+    _, xi = shard
+    part = new_part()
+    x = VALUES[xi]
+    WIRE = True
+    try:
+        for y in VALUES:
+            progs = []
+            for mn in ("beq", "bne", "blt", "bge"):
+                # both values loaded by set; one of them computed (x = (x - 1) + 1 for the first operand)
+                progs.append([("set", [R(2), x]), ("set", [R(3), y]), (mn, [R(2), R(3), 4]), ("set", [C(1), 9]), ("ret_reg", [R(2)])])
+                if -2 ** 31 < x:
+                    progs.append([("set", [R(2), x - 1]), ("set", [R(1), 1]), ("add", [R(2), R(2), R(1)]), ("set", [R(3), y]),
+                                  (mn, [R(2), R(3), 6]), ("set", [C(1), 9]), ("ret_reg", [R(2)])])
+            # through an array entry and back
+            progs.append([("set", [R(1), 1]), ("array", [R(1), ("addr", 5)]), ("set", [R(0), 0]), ("set", [R(2), x]),
+                          ("store", [R(2), ("entry", 5, R(0))]), ("load", [R(3), ("entry", 5, R(0))]), ("set", [R(2), y]),
+                          ("beq", [R(2), R(3), 9]), ("set", [C(1), 9]), ("ret_arr", [("addr", 5)])])
+            if y == VALUES[0]:
+                for mn in ("bez", "bnz"):
+                    progs.append([("set", [R(2), x]), (mn, [R(2), 3]), ("set", [C(1), 9]), ("ret_reg", [R(2)])])
+            for prog in progs:
+                ex = fresh_executor()
+                run_real(ex, SETUP)
+                ref_state = ref_from_snapshot(snapshot(ex))
+                case = {"kind": "program", "setup": SETUP, "program": prog, "wire": True}
+                part["evals"] += 1
+                cls, _ = compare_step(ex, prog, ref_state, case, part, "values")
+                part["transitions"] += 1
+                if cls == "normal":
+                    part["distinct"] += 1
+                    count(part, "value-programs")
+    finally:
+        WIRE = False
+    return part
+
+
 def redeclare_shard(shard):
     """An array address declared again with another length (shorter, equal, longer), returned to the host before and after:
     the host-visible array is the controller's array, with nothing left over from the earlier declaration."""
@@ -447,6 +497,8 @@ def run(ctx):
     res = ctx.pmap(programs_shard, shards)
     res += ctx.pmap(regfile_shard, [("regs", bk, i) for bk in "RCQM" for i in range(16)])
     res += ctx.pmap(redeclare_shard, [("redeclare",)])
+    res += ctx.pmap(values_shard, [("values", i) for i in range(len(VALUES))])
+    ctx.require("value-programs", 1000)
     ctx.require("array-redeclared-programs", 64)
     ctx.require("register-file-programs", 64 * 64 * 2)
     ctx.total["states"] += sum(r["distinct"] for r in res)   # each non-unspecified program ends in one explored final state
@@ -480,9 +532,14 @@ def replay(case, part):
         compare_step(ex, ev, ref_state, case, part, ev[0][0])
         invariants(ex, part, case)
     else:
+        global WIRE
         ex = fresh_executor()
         run_real(ex, SETUP)
+        WIRE = bool(case.get("wire"))
         if case.get("after"):
             run_real(ex, fix(case["after"]))       # an earlier subroutine of the same application
         ref_state = ref_from_snapshot(snapshot(ex))
-        compare_step(ex, fix(case["program"]), ref_state, case, part, "program")
+        try:
+            compare_step(ex, fix(case["program"]), ref_state, case, part, "program")
+        finally:
+            WIRE = False
